@@ -7,6 +7,9 @@ import PV.Proofs.WalkFacts
 import PV.Proofs.WalkCombine
 import PV.Proofs.WalkIdentity
 import PV.Properties.C08
+import PV.Proofs.WalkTable
+import PV.Proofs.WalkCallback
+import PV.Generated.Traversal
 /-
   C04 — mapper dispatch (`Mapper.__call__`, `rec_fallback`, `CachedMapper.__call__`, `map_foreign`),
   handler names of expression dataclasses, and the contracts of the stock traversals
@@ -385,5 +388,340 @@ example : substM {} combE = (combE, false) :=
 example : (substM {} (.list [combE, .cse (.const (.int 1)) none "s"])).1 =
     .list [combE, .cse (.const (.int 1)) none "s"] :=
   identity_equal_partial _ (noZeroCseChild_of_check (by decide))
+
+/-! ## 6. The handlers of the CURRENT source (T-gen)
+
+`Generated.c04WalkTable`, `c04IdentityTable`, `c04CombineTable`, `c04Classes`, … are regenerated
+by extract/traversal.py from the live source of pymbolic/mapper/__init__.py on every check.  The
+theorems below tie the hand-written models (`walk`, `walkChildren`, `combineL`, `Expr.children`,
+`substM`) to those tables for ALL expressions; an edit of the source that reorders, drops or adds
+a child, drops a `visit` / `post_visit`, stops forwarding the extra arguments or permutes
+constructor arguments changes the table and breaks them. -/
+
+open Generated
+
+/-- **Walk handler shapes.**  For every node the `WalkMapper` handler the current source
+dispatches it to (class MRO against the handler names, `Mapper` stubs and aliases followed) has
+exactly the shape `walk` was written from: same bracket, same recursion sites in the same order,
+extra arguments forwarded everywhere. -/
+theorem walk_resolve_current (e : Expr) :
+    c04Resolve c04Classes c04WalkTable e = c04WalkBody e := by
+  cases e with
+  | const k => cases k <;> rfl
+  | nary o cs => cases o <;> rfl
+  | bin o a b => cases o <;> rfl
+  | un o a => cases o <;> rfl
+  | _ => rfl
+
+/-- **Combine handler shapes** of the current source, for a subclass that makes the leaves
+`Collector` makes (`c04CollectorLeaves`) leaves; node kinds without a handler (slice,
+substitution, derivative: unsupported; NaN: the `Mapper` stub raises) included. -/
+theorem combine_resolve_current (e : Expr) :
+    c04Resolve c04Classes (c04WithLeaves c04CollectorLeaves c04CombineTable) e =
+      c04CombineBody e := by
+  cases e with
+  | const k => cases k <;> rfl
+  | nary o cs => cases o <;> rfl
+  | bin o a b => cases o <;> rfl
+  | un o a => cases o <;> rfl
+  | _ => rfl
+
+/-- **Identity handler shapes** of the current source: recursion sites in evaluation order, the
+fields the "same object" test compares, the zero-collapse quirk of `map_common_subexpression`,
+constructor arguments in source order. -/
+theorem identity_resolve_current (e : Expr) :
+    c04Resolve c04Classes c04IdentityTable e = c04IdentBody e := by
+  cases e with
+  | const k => cases k <;> rfl
+  | nary o cs => cases o <;> rfl
+  | bin o a b => cases o <;> rfl
+  | un o a => cases o <;> rfl
+  | _ => rfl
+
+/-- **Field names.**  The field names (and their order) the model reads a node under are the
+dataclass fields of the node's class in the current pymbolic/primitives.py, and the model treats
+a field as one expression / a tuple of expressions / a mapping to expressions / plain data exactly
+as its declared type says. -/
+theorem fields_current (e : Expr) (h : e.c04IsNode = true) :
+    (c04FindClass c04Classes e.kind).map (fun c => (c.fields, c.kinds)) =
+      some (e.c04Fields.map (·.1), e.c04Fields.map (·.2.kindName)) := by
+  cases e with
+  | const k => simp [Expr.c04IsNode] at h
+  | tuple cs => simp [Expr.c04IsNode] at h
+  | list cs => simp [Expr.c04IsNode] at h
+  | nary o cs => cases o <;> rfl
+  | bin o a b => cases o <;> rfl
+  | un o a => cases o <;> rfl
+  | _ => rfl
+
+/-- `Expr.children` = the expression content of the dataclass fields, in field order -/
+theorem children_eq_fields (e : Expr) :
+    e.children = e.c04Fields.flatMap (fun p => p.2.exprs) :=
+  Expr.children_eq_c04Fields e
+
+/-- **`walkChildren` is what the current `WalkMapper` source recurses into**, in that order, for
+every node the mapper accepts. -/
+theorem walkChildren_eq_table_current (e : Expr) (h : e.isRejectedConst = false) :
+    c04TableChildren c04Classes c04WalkTable e = some (walkChildren e) := by
+  have hb := walkChildren_eq_recs e
+  rw [c04TableChildren, walk_resolve_current]
+  cases e with
+  | const k => cases k <;> simp_all [Expr.isRejectedConst, c04WalkBody, c04BodyRecs]
+  | bin o a b => cases o <;> simpa [c04WalkBody, c04BodyRecs] using hb
+  | _ => simpa [c04WalkBody, c04BodyRecs] using hb
+
+/-- **`walk` is the table-driven walk of the current source**: on every node, one handler call as
+the regenerated `WalkMapper` table describes it (`c04WalkStep`), recursing through `walk`. -/
+theorem walk_table_step_current (skip : List String) (args : Bool) (e : Expr) :
+    walk skip args e = c04WalkStep c04Classes c04WalkTable (walk skip) skip args e := by
+  rw [c04WalkStep, walk_resolve_current]; exact walk_eq_stepB skip args e
+
+/-- … and the only such function: anything that makes one table-driven handler call per node and
+recurses through itself IS `walk` (so `walk_eq_spec`, `walk_visits_once`, `walk_args_unchanged`, …
+are theorems about what the current source says). -/
+theorem walk_unique_current (skip : List String)
+    (f : Bool → Expr → Except DepErr (List Event))
+    (hf : ∀ a e, f a e = c04WalkStep c04Classes c04WalkTable f skip a e) :
+    ∀ args e, f args e = walk skip args e := by
+  intro args e
+  exact c04Walk_unique (fun e => c04Resolve c04Classes c04WalkTable e) skip f (walk skip) hf
+    (fun a e => walk_table_step_current skip a e) e args
+
+/-- **Every `WalkMapper` handler of the current source** — those of node kinds outside the model
+(numpy arrays, multivectors, polynomials, `map_if_positive`) included — calls `visit` first and
+`post_visit` last with the extra arguments, forwards them to every recursive call, and only
+childless handlers ignore the answer of `visit`. -/
+theorem walkTable_rows_ok_current : c04WalkTable.all (fun h => c04WalkRowOk h.body) = true := by
+  decide
+
+/-- **Every expression-bearing field once — all node classes.**  For every node class of the
+current primitives (whether the model has a constructor for it or not) the `WalkMapper` handler of
+the class recurses into exactly the fields declared to hold expressions, each once, enumerating
+each as its declared type demands; likewise the `CombineMapper` and `IdentityMapper` handlers. -/
+theorem fields_once_current :
+    c04FieldsOnceOk c04Classes c04WalkTable = true ∧
+    c04FieldsOnceOk c04Classes c04CombineTable = true ∧
+    c04FieldsOnceOk c04Classes c04IdentityTable = true := by
+  decide
+
+/-- **`Expr.children` in field order is what the current `CombineMapper` source folds**, for every
+node that has a handler. -/
+theorem combineChildren_eq_table_current (e : Expr) (hl : e.isCombineLeaf = false)
+    (hu : e.combineUnhandled = false) :
+    c04TableChildren c04Classes (c04WithLeaves c04CollectorLeaves c04CombineTable) e =
+      some e.children := by
+  have hb := combineChildren_eq_recs e hl hu
+  rw [c04TableChildren, combine_resolve_current]
+  cases e with
+  | const k => cases k <;> simp_all [Expr.isCombineLeaf]
+  | bin o a b => cases o <;> simpa [c04CombineBody, c04BodyRecs] using hb
+  | _ => simp_all [c04CombineBody, c04BodyRecs, Expr.isCombineLeaf, Expr.combineUnhandled]
+
+/-- **`combineL` is the table-driven fold of the current source.** -/
+theorem combineL_table_step_current (e : Expr) :
+    combineL e = c04CombineStep c04Classes c04CombineTable c04CollectorLeaves combineL e := by
+  rw [c04CombineStep, combine_resolve_current]; exact combineL_eq_stepB e
+
+/-- … and the only one (so `combineL_eq_leaves`, `combineL_unsupported_iff`, … speak about the
+current source). -/
+theorem combineL_unique_current (f : Expr → Except DepErr (List Expr))
+    (hf : ∀ e, f e = c04CombineStep c04Classes c04CombineTable c04CollectorLeaves f e) :
+    ∀ e, f e = combineL e :=
+  c04Combine_unique
+    (fun e => c04Resolve c04Classes (c04WithLeaves c04CollectorLeaves c04CombineTable) e)
+    f combineL hf combineL_table_step_current
+
+/-- every `CombineMapper` handler of the current source forwards the extra arguments to every
+recursive call -/
+theorem combineTable_rows_ok_current : c04CombineTable.all (fun h => c04FoldRowOk h.body) = true := by
+  decide
+
+/-- **The children the current `IdentityMapper` source maps** are all direct children in field
+order (for a slice: its non-`None` parts; `None` stays in place). -/
+theorem identityChildren_eq_table_current (e : Expr) (h : e.isRejectedConst = false) :
+    c04TableChildren c04Classes c04IdentityTable e =
+      some (match e with
+        | .slice cs => cs.filter (fun c => !c.c04IsNone)
+        | e => e.children) := by
+  have hb := identChildren_eq_recs e
+  rw [c04TableChildren, identity_resolve_current]
+  cases e with
+  | const k =>
+    cases k <;> first
+      | (simp [Expr.isRejectedConst] at h; done)
+      | simpa [c04IdentBody, c04BodyRecs] using hb
+  | bin o a b => cases o <;> simpa [c04IdentBody, c04BodyRecs] using hb
+  | _ => simpa [c04IdentBody, c04BodyRecs] using hb
+
+/-- **`substM` is the table-driven rebuild of the current source** wherever the substitution
+function does not answer: children mapped in the order of the source, the node itself returned iff
+every field the source's test compares is unchanged, otherwise `type(expr)(…)` with the arguments
+in the order of the source (zero-collapse quirk of `map_common_subexpression` included). -/
+theorem substM_table_step_current (σ : SubstMap) (e : Expr) (hr : e.isRejectedConst = false)
+    (hh : c04SubstHook σ e = none) :
+    c04IdentStep c04Classes c04IdentityTable (substM σ) e = some (.ok (substM σ e)) := by
+  rw [c04IdentStep, identity_resolve_current]; exact substM_eq_stepB σ e hr hh
+
+/-- the plain identity mapper (`substM {}`): no hypothesis on the substitution function -/
+theorem identity_table_step_current (e : Expr) (hr : e.isRejectedConst = false) :
+    c04IdentStep c04Classes c04IdentityTable (substM {}) e = some (.ok (substM {} e)) :=
+  substM_table_step_current {} e hr (by cases e <;> simp [c04SubstHook, SubstMap.empty_apply])
+
+/-- … and on trees free of string / `None` constants `substM {}` is the only function that is,
+on every node, one table-driven `IdentityMapper` handler call of the current source recursing
+through itself (so `identity_equal_partial`, `identity_same_object_partial`, `identity_flag_sound`
+speak about the current source). -/
+theorem identity_unique_current (f : Expr → Expr × Bool)
+    (hf : ∀ e, e.isRejectedConst = false →
+      c04IdentStep c04Classes c04IdentityTable f e = some (.ok (f e))) :
+    ∀ e, c04NoRejected e → f e = substM {} e :=
+  c04Ident_unique (fun e => c04Resolve c04Classes c04IdentityTable e) f (substM {}) hf
+    identity_table_step_current
+
+/-- when the substitution function answers, its answer is returned as a new object -/
+theorem substM_hook_answer (σ : SubstMap) (e r : Expr) (h : c04SubstHook σ e = some r) :
+    substM σ e = (r, true) :=
+  substM_hook h
+
+/-- **The hooked node kinds are those the current `SubstitutionMapper` overrides**: a node's
+identity handler is in `c04SubstHooks` exactly for variables, subscripts and look-ups; and each
+hook falls back to `IdentityMapper`'s handler of the same name (or returns `expr` where that
+handler does). -/
+theorem substHooks_current :
+    (∀ e : Expr, e.isRejectedConst = false →
+      (match c04HandlerName c04Classes c04IdentityTable e with
+        | some n => c04SubstHooks.any (fun h => h.1 == n)
+        | none => false) = e.c04Hooked) ∧
+    c04HooksOk c04SubstHooks c04IdentityTable = true := by
+  refine ⟨fun e h => ?_, by decide⟩
+  cases e with
+  | const k => cases k <;> first | rfl | simp [Expr.isRejectedConst] at h
+  | nary o cs => cases o <;> rfl
+  | bin o a b => cases o <;> rfl
+  | un o a => cases o <;> rfl
+  | _ => rfl
+
+/-- **Constructor argument order.**  For every node class of the current primitives whose identity
+handler rebuilds with `type(expr)(…)`, the positional arguments are the class's dataclass fields
+in declaration order. -/
+theorem identity_ctor_order_current : c04CtorOrderOk c04Classes c04IdentityTable = true := by
+  decide
+
+/-- **Every `IdentityMapper` handler of the current source** (unmodelled ones included) forwards
+the extra arguments, compares in its "same object" test exactly the fields it mapped, and passes
+exactly the mapped fields to the constructor in the order it mapped them. -/
+theorem identityTable_rows_ok_current :
+    c04IdentityTable.all (fun h => c04RebuildRowOk h.body) = true := by
+  decide
+
+section examples
+/-- the shift handler of the current source recurses into `shift` before `shiftee` -/
+example : c04TableChildren c04Classes c04WalkTable shiftE =
+    some [.nary .sum [.var "y", .const (.int 1)], .var "x"] := by
+  rw [walkChildren_eq_table_current _ rfl]; simp [shiftE, walkChildren, BinOp.isShift]
+example : c04FindHandler c04WalkTable "map_right_shift" =
+    some ⟨"map_right_shift", "WalkMapper", "map_left_shift",
+      .walk .guard true [⟨"shift", .one, true⟩, ⟨"shiftee", .one, true⟩] true true⟩ := by decide
+/-- a table that drops the `shift` child is NOT the current one: the step differs from `walk` -/
+example : c04WalkStepB (.ok (.walk .guard true [⟨"shiftee", .one, true⟩] true true))
+    (walk []) [] false shiftE ≠ walk [] false shiftE := by
+  simp [shiftE, c04WalkStepB, c04SeqSites, c04RecChildren, Expr.c04Field, Expr.c04Fields, c04Assoc,
+    c04SeqL, walk, wrapWalk, leafWalk, walkL, Expr.kind, BinOp.name, bind, Except.bind, pure,
+    Except.pure]
+example : c04TableChildren c04Classes (c04WithLeaves c04CollectorLeaves c04CombineTable) combE =
+    some combE.children := combineChildren_eq_table_current _ rfl rfl
+example : c04Resolve c04Classes (c04WithLeaves c04CollectorLeaves c04CombineTable) (.slice []) =
+    .error .unsupported := by rfl
+example : c04IdentStep c04Classes c04IdentityTable (substM {}) combE = some (.ok (combE, false)) := by
+  rw [identity_table_step_current _ rfl]
+  exact congrArg _ (congrArg _ (identity_same_object_partial _ (noList_of_check (by decide))
+    (noZeroCseChild_of_check (by decide))))
+/-- swapped constructor arguments are not the current table: the rebuilt node differs -/
+example : c04IdentStepB (.ok (.rebuild [⟨"aggregate", .one, true⟩, ⟨"index", .one, true⟩] true
+      ["aggregate", "index"] false (.sameClass [.rebuilt "index", .rebuilt "aggregate"] false)))
+    (fun e => (e, true)) (.subscript (.var "a") (.var "i")) =
+    some (.ok (.subscript (.var "i") (.var "a"), true)) := by
+  simp [c04IdentStepB, c04MapRecs, c04MapRec, Expr.c04Field, Expr.c04Fields, c04Assoc, c04Rebuild,
+    c04OptSeq, c04ArgVal, Expr.c04Construct]
+example : (Expr.var "x").c04Hooked = true ∧ (Expr.nan).c04Hooked = false := ⟨rfl, rfl⟩
+end examples
+
+/-! ## 7. The callback mapper -/
+
+/-- **Callback handler shapes of the current source**: the `CallbackMapper` of the current source
+hands a node to `function` (with the extra arguments) for exactly the node kinds
+`c04CallbackBody` says; for every other kind dispatch ends at a raising `Mapper` stub or finds no
+handler at all. -/
+theorem callback_resolve_current (e : Expr) :
+    c04Resolve c04Classes c04CallbackTable e = c04CallbackBody e := by
+  cases e with
+  | const k => cases k <;> rfl
+  | nary o cs => cases o <;> rfl
+  | bin o a b => cases o <;> rfl
+  | un o a => cases o <;> rfl
+  | _ => rfl
+
+/-- **`function` is called on exactly the listed kinds.**  One call of the current
+`CallbackMapper` on a node of a listed kind is `function(expr, self, *args, **kwargs)` … -/
+theorem callback_calls_function {β : Type} (function : Bool → Expr → Except DepErr β)
+    (args : Bool) (e : Expr) (h : e.c04CallbackListed = true) :
+    c04CallbackStep c04Classes c04CallbackTable function args e = function args e := by
+  rw [c04CallbackStep, callback_resolve_current, c04CallbackBody_listed h]
+  simp [c04CallbackStepB]
+
+/-- … and on a node of any other kind it raises, whatever `function` is: never a silent default,
+never a call of `function`. -/
+theorem callback_unlisted_never_silent {β : Type} (function : Bool → Expr → Except DepErr β)
+    (args : Bool) (e : Expr) (h : e.c04CallbackListed = false) :
+    ∃ err, c04CallbackStep c04Classes c04CallbackTable function args e = .error err := by
+  rw [c04CallbackStep, callback_resolve_current]
+  rcases c04CallbackBody_unlisted h with hb | ⟨err, hb⟩ <;> rw [hb]
+  · exact ⟨_, rfl⟩
+  · exact ⟨_, rfl⟩
+
+/-- every handler `CallbackMapper` defines in the current source (those of node kinds outside the
+model included) is the callback with the extra arguments forwarded, and `__init__` points the
+fallback mapper's `rec` back at the callback mapper -/
+theorem callbackTable_rows_ok_current :
+    c04CallbackTable.all (fun h => h.definedIn != "CallbackMapper" || h.body == .callback true) = true ∧
+    c04CallbackRedirectsRec = true := by
+  decide
+
+/-- **The delegating callback sees every node once.**  `CallbackMapper(function,
+IdentityMapper())` with a `function` that answers `mapper.fallback_mapper(expr, …)`: when every
+node of the tree is of a listed kind, `function` is called on every node occurrence exactly once,
+in pre-order through ALL children in field order, each time with the extra arguments … -/
+theorem callbackTrace_all_nodes (args : Bool) (e : Expr)
+    (h : ∀ t, Subterm t e → t.c04CallbackListed = true) :
+    callbackTrace args e = .ok ((c04Pre e).map (fun n => (n, args))) := by
+  have hall : allSub Expr.c04CallbackListed e = true := by
+    induction e using children_induct with
+    | step e ih =>
+      rw [allSub_eq, Bool.and_eq_true, List.all_eq_true]
+      exact ⟨h e (.refl e), fun c hc => ih c hc (fun t ht => h t (ht.trans (.child hc)))⟩
+  have := callbackTrace_total args e
+  simpa [C04Outcome, hall] using this
+
+/-- … and when some node is of a kind the callback mapper does not list, the traversal raises. -/
+theorem callbackTrace_never_silent (args : Bool) (e t : Expr) (ht : Subterm t e)
+    (h : t.c04CallbackListed = false) : ∃ err, callbackTrace args e = .error err := by
+  have hall : allSub Expr.c04CallbackListed e = false := by
+    cases hb : allSub Expr.c04CallbackListed e with
+    | false => rfl
+    | true => exact absurd (allSub_sound hb t ht) (by simp [h])
+  have := callbackTrace_total args e
+  simpa [C04Outcome, hall] using this
+
+section examples
+example : callbackTrace true shiftE = .ok
+    [(shiftE, true), (.var "x", true), (.nary .sum [.var "y", .const (.int 1)], true),
+     (.var "y", true), (.const (.int 1), true)] := by
+  rw [callbackTrace_all_nodes _ _ (allSub_sound (by decide))]
+  simp [shiftE, c04Pre_eq, Expr.children]
+example : ∃ err, callbackTrace false (.nary .sum [.var "x", .nary .min [.var "y"]]) = .error err :=
+  callbackTrace_never_silent _ _ (.nary .min [.var "y"]) (.child (by simp [Expr.children])) rfl
+example : (Expr.callKw (.var "f") [] [] []).c04CallbackListed = false ∧
+    (Expr.call (.var "f") []).c04CallbackListed = true := ⟨rfl, rfl⟩
+end examples
 
 end PV.C04
